@@ -165,6 +165,12 @@ ENTRIES = {
     "float": ("EFloat", 0, lambda v: float(v), "float"),
     "round": ("ERound", 0, lambda v: round(v), "round"),
 }
+CLASSNAME = {"getattr": "GetAttr", "getitem": "GetItem", "lt": "LessThan", "le": "LessThanEquals", "eq": "Equals",
+             "ne": "NotEquals", "gt": "GreaterThan", "ge": "GreaterThanEquals", "bool": "Bool", "len": "Length",
+             "contains": "Contains", "add": "Add", "sub": "Subtract", "mul": "Multiply", "rmul": "RightMultiply",
+             "matmul": "MatrixMultiply", "truediv": "Divide", "floordiv": "FloorDivide", "mod": "Modulo",
+             "pow": "Power", "and": "And", "xor": "XOr", "or": "Or", "neg": "Negative", "pos": "Positive",
+             "abs": "Absolute", "invert": "Invert", "int": "Int", "float": "Float", "round": "Round"}
 # the functions behind the rows of the operator table handed to the model (python's own)
 PYFUN = {
     "getattr": getattr, "getitem": operator.getitem, "lt": operator.lt, "le": operator.le, "eq": operator.eq,
@@ -374,12 +380,29 @@ def handmade():
     return out
 
 
+def framing_family():
+    """identifier labels that make the '_'-join of the label ambiguous (known finding C18-underscore-framing)"""
+    out = []
+    for k, e in enumerate(["add", "sub", "mul", "lt", "contains", "eq"]):
+        c = CLASSNAME[e]
+        users = [{"label": "a", "kind": "ui", "vals": [I(1)], "ran": True},
+                 {"label": "d", "kind": "ui", "vals": [I(10)], "ran": k % 2 == 0},
+                 {"label": f"c__user_input_{c}_d", "kind": "ui", "vals": [I(100)], "ran": True},
+                 {"label": f"a__user_input_{c}_c", "kind": "ui", "vals": [I(1000)], "ran": k % 3 != 0}]
+        steps = [{"k": "op", "e": e, "recv": ["node", 0], "others": [["node", 2]], "pull": True, "sp": 0},
+                 {"k": "op", "e": e, "recv": ["chan", 3, 0], "others": [["chan", 1, 0]], "pull": True, "sp": 1}]
+        out.append({"parent": True, "users": users, "steps": steps})
+        out.append({"parent": False, "users": users, "steps": steps})
+    return out
+
+
 def generate(ctx):
     rng = ctx.rng
     cases, seen = [], set()
     hm = handmade()
     if ctx.quick:
         hm = [c for i, c in enumerate(hm) if (i + ctx.seed) % 3 == 0]
+    hm = hm + framing_family()
     for c in hm:
         seen.add(json.dumps(c, sort_keys=True))
         cases.append(c)
@@ -642,7 +665,7 @@ def _reach_table(case):
     t = _Table()
     users = case["users"]
     cand: list = []            # per step: {enc: obj} of the values its node may hold
-    strs = {}
+    strs, reprs = {}, {}
     all_slices = {}
 
     def cands(ref):
@@ -654,6 +677,7 @@ def _reach_table(case):
         if k == "raw":
             v = build_val(ref[1])
             strs[enc(v)] = str(v)
+            reprs[enc(v)] = repr(v)
             return [v]
         if k == "res":
             return list(cand[ref[1]].values())[:_Table.CAP] if ref[1] < len(cand) else []
@@ -680,7 +704,7 @@ def _reach_table(case):
                     tag, r = t.call("slice", args)
                     if tag == "ok":
                         all_slices[enc(r)] = r
-                        strs[enc(r)] = str(r)
+                        reprs[enc(r)] = repr(r)
             for x in cands(s["recv"]):
                 for sl in list(all_slices.values())[:_Table.CAP]:
                     tag, r = t.call("getitem", [x, sl])
@@ -697,14 +721,19 @@ def _reach_table(case):
             if kj == key or (key == ("slice",) and kj == ("op", "getitem")) or (kj == ("slice",) and key == ("op", "getitem")):
                 merged.update(cand[j])
         cand.append(merged)
-    return t.rows, strs
+    return t.rows, strs, reprs
+
+
+def _ascii(v):
+    return "".join(c if 32 <= ord(c) < 127 else "?" for c in v)
 
 
 def model_term(case):
     case = _tolist(case)
-    rows, strs = _reach_table(case)
+    rows, strs, reprs = _reach_table(case)
     rows_c = cl(f"({cs(f)}, {cl(cs(a) for a in args)}, {cb(isx)}, {cs(r)})" for (f, args), (isx, r) in rows.items())
-    strs_c = cl(f"({cs(k)}, {cs(''.join(c if 32 <= ord(c) < 127 else '?' for c in v))})" for k, v in strs.items())
+    strs_c = cl(f"({cs(k)}, {cs(_ascii(v))})" for k, v in strs.items())
+    reprs_c = cl(f"({cs(k)}, {cs(_ascii(v))})" for k, v in reprs.items())
     users_c = cl(
         "(mkU " + cs(u["label"]) + " "
         + cl(f"({cs(l)}, {cs(enc(build_val(v)))})" for l, v in zip(CHAN_LABELS[u["kind"]], u["vals"]))
@@ -718,7 +747,7 @@ def model_term(case):
             steps.append(f"(SSlice {_ref_coq(s['recv'])} {' '.join(_ref_coq(r) for r in s['m'])} {cb(bool(s.get('pull')))})")
         else:
             steps.append(f"(SUnsup {_ref_coq(s['recv'])} {_ref_coq(s['other'])})")
-    return f"t_run {rows_c} {strs_c} {cb(case['parent'])} {users_c} {cl(steps)}"
+    return f"t_run {rows_c} {strs_c} {reprs_c} {cb(case['parent'])} {users_c} {cl(steps)}"
 
 
 # ---- the property, checked on the implementation's observation ----------------------------------------
@@ -791,7 +820,8 @@ def _ideal(case, obs):
 
 
 def _norms(case, level="exact"):
-    """normal form of the request(s) each step issues; [level] blurs what the cause predicates blur"""
+    """normal form of the request(s) each step issues.  level "frame" blurs exactly what the label blurs:
+    a request becomes (class, the "_"-join of the texts of receiver, class name and operands)"""
     users = case["users"]
     norms = []          # per step: (top request normal form or None, [request normal forms issued in order])
 
@@ -802,72 +832,38 @@ def _norms(case, level="exact"):
         k = ref[0]
         if k in ("chan", "node"):
             u, j = ref[1], (ref[2] if k == "chan" else 0)
-            if level in ("all", "frame"):
-                return ("t", _scoped(users, u, j))
-            return ("c", u, j)
+            return ("t", _scoped(users, u, j)) if level == "frame" else ("c", u, j)
         if k == "raw":
             v = build_val(ref[1])
-            return ("v", enc(v)) if level == "exact" else ("t", str(v))
+            return ("v", enc(v)) if level == "exact" else ("t", repr(v))
         top = norms[ref[1]][0] if ref[1] < len(norms) else None
         return ("n", top)
 
+    def request(cname, recv, others):
+        if level == "frame":
+            return ("lbl", cname, "_".join([tok(recv), cname] + [tok(o) for o in others]))
+        return ("req", cname, recv, tuple(others))
+
     for s in case["steps"]:
         if s["k"] == "op":
-            req = ("op", ENTRIES[s["e"]][0], ref_norm(s["recv"]), tuple(ref_norm(r) for r in s["others"]))
+            req = request(CLASSNAME[s["e"]], ref_norm(s["recv"]), [ref_norm(r) for r in s["others"]])
             norms.append((req, [req]))
         elif s["k"] == "slice":
-            ms = tuple(ref_norm(r) for r in s["m"])
-            if level == "frame":
-                ms = ("_".join(tok(m) for m in ms),)
-            sl = ("slicereq", ref_norm(s["recv"]), ms)
-            req = ("op", "EGetitem", ref_norm(s["recv"]), (("n", sl),))
-            norms.append((req, [sl, req]))
+            recv = ref_norm(s["recv"])
+            if all(r[0] == "raw" for r in s["m"]):      # python's own slice object: an ordinary raw item
+                sl = slice(*[build_val(r[1]) for r in s["m"]])
+                req = request("GetItem", recv, [("v", enc(sl)) if level == "exact" else ("t", repr(sl))])
+                norms.append((req, [req]))
+            else:
+                slq = request("Slice", recv, [ref_norm(r) for r in s["m"]])
+                req = request("GetItem", recv, [("n", slq)])
+                norms.append((req, [slq, req]))
         else:
             norms.append((None, []))
     return norms
 
 
-LEVELS = [("str", "S17-str-operands"), ("all", "C18-channel-vs-string"), ("frame", "C18-underscore-framing")]
-
-
-def _slice_open(case, ideal, s):
-    """the Slice node function refuses these member values"""
-    if s["k"] != "slice":
-        return False
-
-    def vals(ref, defaulted):
-        k = ref[0]
-        if k == "raw":
-            return [build_val(ref[1])]
-        if k == "chan":
-            out = [build_val(case["users"][ref[1]]["vals"][ref[2]])]
-        elif k == "node":
-            out = [build_val(case["users"][ref[1]]["vals"][0])]
-        else:
-            r = ideal[ref[1]] if ref[1] < len(ideal) else ("none",)
-            out = [r[1]] if r[0] == "ok" else []
-        return out + ([None] if defaulted else [])
-
-    for a, b, c in itertools.product(vals(s["m"][0], False), vals(s["m"][1], False), vals(s["m"][2], False)):
-        if (a is None and (b is None or c is not None)) or (a is not None and b is None):
-            return True
-    return False
-
-
-def _premature(case, obs):
-    """steps writing a channel-containing slice whose start or step member held no data at that moment
-    (the Slice node then runs with the default None), and the steps that write the same slice again"""
-    exact = _norms(case)
-    poisoned, out = set(), set()
-    for i, (s, o) in enumerate(zip(case["steps"], obs)):
-        if o == ["stopped"] or s["k"] != "slice" or len(o) != 6:
-            continue
-        mready = o[5][1] if o[5] else None
-        if mready and (not mready[0] or not mready[2]):
-            poisoned.add(exact[i][1][0])
-        if exact[i][1][0] in poisoned:
-            out.add(i)
-    return out
+LEVELS = [("frame", "C18-underscore-framing")]
 
 
 def _tree_keys(obs, i):
@@ -1001,6 +997,10 @@ def analyse(case, obs):
                 ok = exp[0] == "exc" and pl[1] in (exp[1], "ReadinessError")
                 if not ok:
                     out.append((i, "exception", f"exception: step {i} pull raised {pl[1]}; python gives {_show(exp)}"))
+            elif pinfo == ["ReadinessError", None] and _parent_cache_hit(case, obs, i):
+                # outside C18's clauses: the Workflow's own input cache (C05) made this pull a no-op
+                # upstream, so the node never got to run; there is no value to judge
+                pass
             else:
                 ok = exp[0] == "upexc" and (
                     (pinfo[0] == "FailedChildError" and (pinfo[1] in exp[1] or pinfo[1] == "ReadinessError"))
@@ -1059,8 +1059,6 @@ def known(case, obs, verdict):
         return None
     active = {e["id"] for e in lib.known_findings(PROP) if e.get("status") == "known"}
     coll = _collisions(case, obs)
-    ideal = _ideal(case, obs)
-    premature = _premature(case, obs)
     ids = []
     for i, sig, msg in vs:
         fid = None
@@ -1069,14 +1067,6 @@ def known(case, obs, verdict):
             fid = coll.get(i)
         elif sig in ("value", "exception"):
             fid = next((coll[k] for k in clo if k in coll), None)
-            if fid is None and sig == "exception" \
-                    and any(_slice_open(case, ideal, case["steps"][k]) for k in clo):
-                fid = "C18-slice-open-ended"
-            if fid is None and sig == "exception" and any(k in premature for k in clo):
-                fid = "C18-slice-premature-default"
-            if fid is None and sig == "exception" and obs[i][4] == ["up"] and obs[i][5][0] == ["ReadinessError", None] \
-                    and _parent_cache_hit(case, obs, i):
-                fid = "C18-parent-cache-skips-pull"
         if fid is None or fid not in active:
             return None
         ids.append(fid)
